@@ -447,8 +447,25 @@ def run_boxby_case(ctx, case):
     with warnings.catch_warnings():
         warnings.simplefilter("ignore")
         try:
-            bp = boxplot.Boxplot(pd.Series(v), by=pd.Series(by), box_coverage=bc,
-                                 whiskers_coverage=wc)
+            # both series are columns of one data frame: same index, which is the
+            # default one only when the frame was never filtered, sorted or thinned
+            idx = None
+            ik = case.get("index", "default")
+            n_ = len(v)
+            if ik == "permuted":
+                idx = np.random.default_rng(n_).permutation(n_)
+            elif ik == "gapped":
+                idx = np.arange(n_) * 2 + 1
+            elif ik == "shifted":
+                idx = np.arange(n_) + n_ // 2
+            elif ik == "dates":
+                idx = pd.date_range("2001-01-01", periods=n_, freq="D")
+            elif ik == "labels":
+                idx = [f"row{k}" for k in range(n_)]
+            if idx is not None:
+                ctx.tag("box:by-shared-non-default-index")
+            bp = boxplot.Boxplot(pd.Series(v, index=idx), by=pd.Series(by, index=idx),
+                                 box_coverage=bc, whiskers_coverage=wc)
             st = bp.stats
         except Exception as e:
             ctx.check("Boxplot.by.runs", False, "Boxplot(by)|raises", case,
@@ -512,6 +529,9 @@ def run_violin_case(ctx, case):
         const = len(fin) > 0 and fin.min() == fin.max()
         if const and len(fin) > 2:
             ctx.tag("violin:constant")
+        if len(fin) > 2 and not const and \
+                fin.max() - fin.min() <= 1e-9 * float(np.max(np.abs(fin))):
+            ctx.tag("violin:offset-dominated-column")
         if len(fin) == 0:
             continue
         mag = float(np.max(np.abs(fin)))
@@ -530,7 +550,8 @@ def run_violin_case(ctx, case):
             oky = bool(np.all(np.isfinite(y))) and abs(y.min()) <= 1e-12 and \
                 abs(y.max() - 1) <= 1e-12 and bool(np.all((y >= 0) & (y <= 1)))
             okx = bool(np.all(np.isfinite(x))) and bool(np.all(np.diff(x) >= 0)) and \
-                x.min() >= fin.min() - 2e-6 and x.max() <= fin.max() + 2e-6
+                x.min() >= fin.min() - 2e-6 - 4 * np.spacing(mag) and \
+                x.max() <= fin.max() + 2e-6 + 4 * np.spacing(mag)
             ctx.check("violin.density", oky and okx, "Violin|density-profile", case,
                       lambda: {"col": i, "ymin": float(np.nanmin(y)),
                                "ymax": float(np.nanmax(y))})
@@ -640,7 +661,9 @@ def run(ctx):
             v = spoil(rng, gen_column(rng, nrow2, int(rng.integers(0, 5))),
                       int(rng.integers(0, 4)))
             run_boxby_case(ctx, {"kind": "boxby", "values": v, "by": by, "box": bc,
-                                 "whisk": wc})
+                                 "whisk": wc,
+                                 "index": ["default", "permuted", "gapped", "shifted",
+                                           "dates", "labels"][it0 % 6]})
         # violin
         if it0 % 3 == 0:
             nv = [5, 101, 151, 30, 499, 120, 3, 250, 500, 501, 640, 1000, 1025,
@@ -649,6 +672,12 @@ def run(ctx):
             ncv = int(rng.integers(1, 4))
             vc = [spoil(rng, gen_column(rng, nv, int(rng.integers(0, 5))),
                         int(rng.integers(0, 4))) for _ in range(ncv)]
+            if it0 % 2 == 1 and nv >= 3:
+                # a column dominated by an offset: times within one second of an epoch,
+                # levels above a datum ... (range 1e-9 .. 1e-11 of the magnitude)
+                off, spread = [(1.7e9, 1.0), (1.0, 1e-10), (1e6, 1e-4), (-4.2e5, 1e-5),
+                               (3e12, 100.0)][int(rng.integers(0, 5))]
+                vc[0] = off + spread * rng.uniform(0, 1, size=nv)
             run_violin_case(ctx, {"kind": "violin", "cols": vc,
                                   "npseed": int(rng.integers(0, 2 ** 31))})
 
